@@ -116,6 +116,37 @@ func c14SegMaps(form, segs int) c14MapsecT {
 }
 
 func c14RunStreams(emit c14EmitFn) {
+	// memory map: which entry is taken for the main binary.  A shared library (".so" at the end, or ".so" followed by
+	// "." / "_" and a digit -- any number of version components), a bracketed pseudo file, an empty name and a
+	// "(deleted)" marker are never chosen; names that only look like libraries are.  The candidate is listed BEFORE
+	// the executable, so a wrong decision moves it to the front of the mapping table.
+	for i, first := range []string{"/usr/lib/libdemo.so.1.2.3", "/lib/libz.so.1.2.11", "/lib/libcrypto.so.1.1", "/lib/libc.so.6", "libfoo.so_1_2",
+		"/lib/libm-2.15.so", "/lib/ld.so(deleted)", "[vdso]", "", "/opt/x.so.d/tool", "/opt/libfoo.sox", "/opt/app.so1", "/lib/libq.so.", "/opt/so", "/lib/libw.so.1a"} {
+		for form := 0; form < 3; form++ {
+			if first == "" && form != 0 {
+				continue
+			}
+			mk := func(st uint64, file string) c14DmapT {
+				e := c14DmapT{kind: form, start: c14Hx(st), limit: c14Hx(st + 0x1000), file: file}
+				if form == 0 {
+					e.perm, e.offset, e.dev, e.inode = "r-xp", "00000000", "fc:01", "7"
+				}
+				return e
+			}
+			m := c14MapsecT{present: true, entries: []c14DmapT{mk(0x100000, first), mk(0x200000, "/lib/libother.so.2.0"), mk(0x400000, "/bin/server"), mk(0x500000, "/bin/second")}}
+			cd := c14CdocT{typ: "goroutine", total: "3", m: m}
+			for k, a := range []uint64{0x100011, 0x400011, 0x200011} {
+				cd.items = append(cd.items, c14CitemT{count: strconv.Itoa(k + 1), addrs: []string{c14Hx(a), c14Hx(0x500021)}})
+			}
+			emit("maps-mainbinary", "doc", "count", cd.term(), []byte(c14JoinLines(cd.lines())), nil, false, true, fmt.Sprintf("mainbin:%d", i), fmt.Sprintf("segs:form%d", form))
+			if i < 7 && form < 2 {
+				// the same library listed AFTER the executable (addresses above it): the executable stays first
+				after := c14MapsecT{present: true, entries: []c14DmapT{mk(0x400000, "/bin/server"), mk(0x7f0000100000, first), mk(0x7f0000200000, "/lib/libother.so.2.0")}}
+				ca := c14CdocT{typ: "goroutine", total: "2", m: after, items: []c14CitemT{{count: "1", addrs: []string{c14Hx(0x7f0000100011), c14Hx(0x400021)}}, {count: "2", addrs: []string{c14Hx(0x7f0000200011)}}}}
+				emit("maps-mainbinary", "doc", "count", ca.term(), []byte(c14JoinLines(ca.lines())), nil, false, true, fmt.Sprintf("mainbin:%d", i), "mainbin:after")
+			}
+		}
+	}
 	// heap: effective sampling rate exactly 1 (heap/2, heap/3, heap_v2/1, heapz_v2/1) and 0/unknown (heap/1, heap_v2) with tiny
 	// blocks: raw values are the documented ones ("rate <= 1"); an unsampling applied there is far from 1 for 1-8 byte blocks
 	for _, nr := range [][2]string{{"heap", "2"}, {"heap", "3"}, {"heap_v2", "1"}, {"heapz_v2", "1"}, {"heap", "1"}, {"heap_v2", ""}} {
